@@ -352,3 +352,45 @@ def repo_env():
     env['PYTHONPATH'] = REPO
     env['PYTHONHASHSEED'] = '0'
     return env
+
+
+# ---------------------------------------------------------------------------------------------------------------------------------
+# looking at objects (observer effects) and rarely seen input types - shared by the search oracles
+def look_at(obj, html=True):
+    """everything a user, a debugger or a notebook does to merely LOOK at an object: repr / str / __attrs__ / rich and html representations and the
+    has_* probes of every hook.  None of it may change what the object computes afterwards.  Exceptions of the representations are swallowed
+    (an object that cannot be shown yet - a pass without its opening - is still only looked at)."""
+    for f in (repr, str, lambda o: o.__attrs__, lambda o: list(o.__rich_repr__()) if hasattr(o, '__rich_repr__') else None,
+              (lambda o: o._repr_html_() if hasattr(o, '_repr_html_') else None) if html else (lambda o: None),
+              lambda o: o._repr_pretty_ if hasattr(o, '_repr_pretty_') else None):
+        try:
+            f(obj)
+        except Exception:      # noqa
+            pass
+    hooks = getattr(type(obj), '__hooks__', None)
+    if hooks:
+        for name in sorted(hooks):
+            for probe in ('has_set', 'has_cached', 'has_set_or_cached'):
+                try:
+                    getattr(obj, probe)(name)
+                except Exception:      # noqa
+                    pass
+    try:
+        import matplotlib.pyplot as plt
+        plt.close('all')
+    except Exception:      # noqa
+        pass
+
+
+def as_0d(kwargs, keys=None):
+    """the same values carried by 0-d float numpy arrays (what reading a measurement file or a preceding numpy computation delivers): mutable numbers, so an
+    in-place operation on an argument shows in the caller's object.  Returns (kwargs with arrays, copies of the original values)"""
+    import numpy as np
+    out, orig = {}, {}
+    for k, v in kwargs.items():
+        if (keys is None or k in keys) and isinstance(v, (int, float)) and not isinstance(v, bool):
+            out[k] = np.array(float(v))
+            orig[k] = float(v)
+        else:
+            out[k] = v
+    return out, orig
